@@ -1,15 +1,121 @@
+mod c01;
+mod check;
 mod driver;
+mod gen;
+mod job;
+mod model;
+mod ops;
 mod process;
 mod rng;
 mod state;
 
+use check::{Property, RunOpts, Tier};
 use driver::*;
+
+fn tier_from(args: &[String]) -> Tier {
+    let t = args
+        .iter()
+        .find(|a| *a == "quick" || *a == "thorough")
+        .cloned()
+        .or_else(|| std::env::var("VERIF_TIER").ok())
+        .unwrap_or_else(|| "quick".into());
+    if t == "thorough" {
+        Tier::Thorough
+    } else {
+        Tier::Quick
+    }
+}
+
+fn runs_override(args: &[String]) -> Option<u64> {
+    args.iter()
+        .position(|a| a == "--runs")
+        .and_then(|i| args.get(i + 1))
+        .and_then(|s| s.parse().ok())
+        .or_else(|| std::env::var("VERIF_RUNS").ok().and_then(|s| s.parse().ok()))
+}
+
+fn run_property(id: &str, args: &[String]) -> i32 {
+    let opts = RunOpts {
+        tier: tier_from(args),
+        seed: check::verif_seed(),
+        runs_override: runs_override(args),
+        write_evidence: !args.iter().any(|a| a == "--no-evidence"),
+    };
+    match id {
+        "C01" => check::run_check(&c01::C01, &opts),
+        _ => {
+            println!("HARNESS-ERROR: unknown property {id}");
+            2
+        }
+    }
+}
+
+fn replay(path: &str) -> i32 {
+    let p = std::path::Path::new(path);
+    let b = match std::fs::read(p) {
+        Ok(b) => b,
+        Err(e) => {
+            println!("HARNESS-ERROR: {e}");
+            return 2;
+        }
+    };
+    let v: serde_json::Value = match serde_json::from_slice(&b) {
+        Ok(v) => v,
+        Err(e) => {
+            println!("HARNESS-ERROR: {e}");
+            return 2;
+        }
+    };
+    match v.get("property").and_then(|x| x.as_str()) {
+        Some("C01") => check::replay_main(&c01::C01, p),
+        other => {
+            println!("HARNESS-ERROR: replay file for unknown property {other:?}");
+            2
+        }
+    }
+}
+
+fn selfcheck(args: &[String], child: bool) -> i32 {
+    let n: u64 = args.get(2).and_then(|s| s.parse().ok()).unwrap_or(200);
+    let seed: u64 = args.get(1).and_then(|s| s.parse().ok()).unwrap_or(check::verif_seed());
+    let ids: Vec<&str> = match args.first().map(String::as_str) {
+        Some("all") | None => vec!["C01"],
+        Some(x) => vec![x],
+    };
+    let mut code = 0;
+    for id in ids {
+        let r = match id {
+            "C01" => check::selfcheck(&c01::C01, seed, n, child),
+            _ => Err(format!("unknown property {id}")),
+        };
+        match r {
+            Ok(h) => {
+                if child {
+                    for x in h {
+                        println!("H {x}");
+                    }
+                } else {
+                    println!("selfcheck {id}: {n} seeds deterministic across worker counts and OS processes");
+                }
+            }
+            Err(e) => {
+                println!("HARNESS-ERROR: determinism self-check failed: {e}");
+                code = 2;
+            }
+        }
+    }
+    code
+}
 
 fn main() {
     process::install_panic_hook();
     let args: Vec<String> = std::env::args().collect();
     match args.get(1).map(String::as_str) {
         Some("probe") => probe(&args[2..]),
+        Some("check") => std::process::exit(run_property(&args[2], &args[3..])),
+        Some("replay") => std::process::exit(replay(&args[2])),
+        Some("selfcheck") => std::process::exit(selfcheck(&args[2..], false)),
+        Some("selfcheck-child") => std::process::exit(selfcheck(&args[2..], true)),
         Some("hashprobe") => {
             let a = process::hash_order_probe(1);
             let b = process::hash_order_probe(1);
@@ -70,7 +176,7 @@ fn probe(args: &[String]) {
         for l in &lines[..upto.min(lines.len())] {
             obs.push(p.exec_line(l));
         }
-        let bytes = ckpt.map(|(f, _)| (f, p.checkpoint(f), p.term_cursor()));
+        let bytes = ckpt.map(|(f, _)| (f, p.checkpoint(f), p.env_cursor()));
         (obs, bytes)
     })
     .unwrap();
@@ -95,7 +201,7 @@ fn probe(args: &[String]) {
         let n = ckpt.unwrap().1;
         let lines3 = lines2.clone();
         let second = process::run_process(22, move || {
-            let mut p = match VmProc::restore(f, &bytes, &spec2, cursor, &[], n) {
+            let mut p = match VmProc::restore(f, &bytes, &spec2, &cursor, &[], n) {
                 Ok(p) => p,
                 Err(e) => return Err(e),
             };
